@@ -83,7 +83,7 @@ from btcsim.seams import state as st
 from btcsim.seams.disk import SimDisk, SimFile, corrupt_bytes
 from btcsim.seams.rng import SimRng
 
-P10, P18, P12, P09, P19 = "C10", "C18", "C12", "C09", "C19"
+P10, P18, P12, P09, P19, P05 = "C10", "C18", "C12", "C09", "C19", "C05"
 ROUND = 150  # retransmission timeout; > two longest delays plus processing
 QUIESCE = 300  # no fault is injected from here on
 LIB = (BTClibException,)
@@ -188,6 +188,28 @@ class World:
         return self.coord.current
 
 
+def _codecs(ctx: Ctx, raw: bytes, what: str) -> None:
+    """C05, on the PSBTs a real ceremony ships (signatures, taproot derivations, scripts written by the
+    library's own Updater and Signers): the octets are a fixed point of parse/serialize, and the base64 and
+    JSON forms -- the other two ways such a message is stored or sent -- give the same object back."""
+    if not ctx.wants(P05):
+        return
+    import json  # noqa: PLC0415
+
+    with ctx.must_succeed(P05, "ceremony-psbt-parses", what):
+        obj = Psbt.parse(raw)
+        again = obj.serialize()
+    ctx.check(P05, "psbt-fixed-point", Psbt.parse(again).serialize() == again, lambda: f"{what}: re-serializing twice differs", site=what)
+    ctx.check(P05, "psbt-keeps-length", len(again) == len(raw), lambda: f"{what}: {len(raw)} octets in, {len(again)} out", site=what)
+    with ctx.must_succeed(P05, "b64-round-trip", what):
+        back = Psbt.b64decode(obj.b64encode())
+    ctx.check(P05, "b64-round-trip", back == obj and back.serialize() == again, f"{what}: the base64 form decodes to another psbt", site=what)
+    with ctx.must_succeed(P05, "json-round-trip", what):
+        back = Psbt.from_dict(json.loads(json.dumps(obj.to_dict())))
+    ctx.check(P05, "json-round-trip", back == obj and back.serialize() == again, f"{what}: the JSON form decodes to another psbt", site=what)
+    ctx.probe("codec-checked:" + what)
+
+
 class Coordinator:
     name = "coord"
 
@@ -211,6 +233,7 @@ class Coordinator:
         self.done_at: int | None = None
 
     def start(self) -> None:
+        _codecs(self.ctx, self.request_bytes, "request")
         self.disk.write("request", self.request_bytes)
         self.disk.sync("request")
         self.ctx.log("start", f"asked={[c.name for c in self.w.asked]}", f"bytes={len(self.request_bytes)}", actor=self.name)
@@ -247,6 +270,9 @@ class Coordinator:
         if msg.tainted:
             self.ctx.probe("altered-answer-accepted")
         self.current = merged
+        if not msg.tainted:
+            _codecs(self.ctx, msg.data, "answer")
+            _codecs(self.ctx, merged.serialize(), "combined")
         self.disk.write("combined", merged.serialize())
         if not self.w.faulty or self.ctx.ch.draw(3, "coord.sync?"):
             self.disk.sync("combined")
@@ -968,6 +994,12 @@ CHECKS = {
         "plans": _plans({"first": list(gw.TAPROOT_SHAPES)}),
         "rule": _RULE + "C12: the first wallet is taproot; every leaf's control block from input_script_sig, the Updater and the finalizer is checked against the paid output key; in the faulty plan 8 single-bit alterations per taproot input go to check_output_pubkey and one to the engine.",
         "assumptions": [*_ASSUME, "trees have 1-6 leaves (depth <= 5); the BIP341 formula is compared with an independent transcription on a quarter of the taproot inputs"],
+    },
+    "C05": {
+        "level": "fault_enumeration",
+        "plans": lambda tier: [__import__("btcsim.core.runner", fromlist=["Plan"]).Plan("ceremony", {"faults": False}, share=1.0, chunk=20, label="ceremony/codecs")],
+        "rule": "ceremony/codecs: every PSBT a fault-free simulated signing ceremony ships (request, each answer, each combined state) is held to the fixed-point, base64 and JSON round trips; distinct = distinct event trace.",
+        "assumptions": ["these PSBTs are what the library's own Updater, Signers and Combiner write: realistic content, no hostile bytes (W4 has those)"],
     },
     "C09": {
         "level": "exploration",
